@@ -16,12 +16,12 @@ import gpytorch
 from gpytorch import settings as gs
 from harness.lib import common as C
 
-COQ_TARGETS = ["Models/C08_shape.vo", "Models/C08_diag.vo"]
+COQ_TARGETS = ["Models/C08_shape.vo", "Models/C08_diag.vo", "Models/C08_prior.vo"]
 LEVEL_NOTE = ("theorems are about the Gallina shape/broadcast model (which slice each batch element reads); the tie to "
               "/repo is differential: every module's batched output element b vs a non-batched replica built from the "
               "slices the Coq model names (float64, 1e-9)")
-IMPORTS = "From Coq Require Import List ZArith.\nFrom GPV Require Import Models.C08_shape Models.C08_diag."
-RUN_DEF = "Definition run := run_shapes_cls."
+IMPORTS = "From Coq Require Import List ZArith.\nFrom GPV Require Import Models.C08_shape Models.C08_diag Models.C08_prior."
+RUN_DEF = "Definition run := run_shapes_cls2."
 N3 = 3            # number of points of the diag_n3 outputs (coincides with a batch size on purpose)
 TOL = 1e-9
 
@@ -61,6 +61,9 @@ def coq_triples(pairs, tag="C08"):
             trip.append(dict(b=b, p=p, p_ravel=pr, p_off=po, d=d, d_ravel=dr, d_off=do))
         # input-class bits of the two recorded findings, decided by the Coq model (Models/C08_diag.v)
         cls = dict(diag_collision=bool(rd.int()), expands=bool(rd.int()))
+        # Models/C08_prior.v: parameters have a lower batch rank than the objective; rank of the reduced prior term of an
+        # owner without batch_shape for a value with one event dim (e.g. the noise)
+        cls.update(param_rank_short=bool(rd.int()), unknown_owner_kept_rank=rd.int())
         assert rd.done()
         out.append(dict(t=t, triples=trip, **cls))
     return out
@@ -101,6 +104,12 @@ def check_against_torch(out, sp, sd, m):
     if m["expands"] != texp or m["diag_collision"] != literal or literal != diag_collision(sp, sd, tt, N3):
         out.fail("shape-model:input-class-bits", "Coq expands_to / takes_diagonal disagree with torch / the literal test", case,
                  impl=dict(expands=texp, diag_collision=literal), model=dict(expands=m["expands"], diag_collision=m["diag_collision"]))
+        ok = False
+    # Models/C08_prior.v against the literal code of ExactMarginalLogLikelihood._add_other_terms
+    if m["param_rank_short"] != (len(sp) < len(tt)) or m["unknown_owner_kept_rank"] != min(len(tt), len(sp) + 1):
+        out.fail("shape-model:prior-term-bits", "Coq param_rank_short / prior_reduced_shape disagree with the literal rule", case,
+                 impl=dict(short=len(sp) < len(tt), kept=min(len(tt), len(sp) + 1)),
+                 model=dict(short=m["param_rank_short"], kept=m["unknown_owner_kept_rank"]))
         ok = False
     return ok
 
@@ -486,7 +495,7 @@ class ExactGPPriorFam(ExactGPFam):
         cls = "+param-batch-exceeds-data-batch" if name == "loo" and not m["expands"] else ""
         if self.site in self.OWNER_WITHOUT_BATCH_SHAPE:
             cls += "+owner-without-batch_shape"
-            if len(sp) < len(m["t"]):
+            if m["param_rank_short"]:          # Coq: length sp < length t (c08_prior_term_unknown_owner_iff)
                 cls += "+param-rank-lt-result-rank"
         return cls
 
@@ -838,8 +847,18 @@ def run(out, ctx):
                 "exception is attributed to the public call that raised; families: %d kernels (K, K(x,x2), diag, lazy diag, and "
                 "diag / lazy diag on n=3 points = a batch size), 2 means, 3 likelihoods, exact GP (data batch on train+test / train "
                 "only / test only: MLL, prior, posterior, predictive), whitened + unwhitened variational (predictive, KL, ELBO), "
-                "IndependentModelList + SumMarginalLogLikelihood; failure keys carry the input-class bits computed by the Coq model "
-                "(Models/C08_diag.v: expands_to, takes_diagonal); non-trivial = broadcast batch has > 1 element" % len(KERNELS))
+                "exact GP with hyperparameter priors on ONE kind of module per family (kernel, ConstantMean, LinearMean weights+bias, "
+                "noise model, closure prior on the likelihood, closure priors on the model object (with / without event dims), all "
+                "of them): MLL and leave-one-out pseudo likelihood; variational GP with priors (kernel, likelihood closure, model "
+                "closure): ELBO and predictive log likelihood; batch-independent multi-output exact GP (batch_shape [T] + "
+                "from_batch_mvn, with / without priors) vs T single-output replicas; IndependentModelList / LikelihoodList / "
+                "SumMarginalLogLikelihood: 2 and 3 members of different data sizes with Gaussian / fixed-noise / fixed+learned / "
+                "heteroskedastic (noise GP) likelihoods, EVERY public call form (call with tuples / bare tensors, forward, forward_i, "
+                "likelihood_i, marginal / expected_log_prob / forward of the likelihood list with and without per-model params and "
+                "with the noise= kwarg, SumMLL of exact and LOO members with and without per-model params, posterior, predictive, "
+                "fantasy models with and without noise=) against the members' own outputs (their mean for the sum MLL); failure keys "
+                "carry the input-class bits computed by the Coq model (Models/C08_diag.v: expands_to, takes_diagonal; "
+                "Models/C08_prior.v: param_rank_short); non-trivial = broadcast batch has > 1 element" % len(KERNELS))
     out.exhaustive = True
     out.extra["tolerances"] = {"replica": TOL}
     fams = families(tier)
